@@ -19,7 +19,7 @@ func init() {
 		ID:          "C11",
 		Title:       "String literals denote exactly the intended string",
 		Technique:   "static analysis: shape classification of the literal decoder as a pipeline of string transformers extracted from SSA; single-pass replacer table compared with the escape set read out of ZitiQl.g4; for multi-pass chains an exhaustive critical-pair computation on the extracted pairs (bounded words) against the single-pass reading; provenance rule from the STRING token to StringConstNode.value; verbatim-input rule (lexer reads the caller's text; ast.Parse answers only through the grammar)",
-		LevelText:   "Decides that the decoder of string literals is a single left-to-right pass over exactly the escape pairs the grammar allows (or, for a chain of replace passes, that the chain is equivalent to such a pass on all words up to length 6 over the escape alphabet, naming a witness otherwise), that exactly one leading and one trailing quote are stripped, and that nothing else rewrites the value between the lexer token and the constant node. Does not decide that the generated lexer accepts exactly the grammar's STRING language (no ANTLR tool to regenerate) nor Unicode normalisation. The text given to antlr.NewInputStream is the caller's text handed through unchanged from the exported entry points, and every query ast.Parse returns has passed the zitiql parser (empty filter excepted). Qualified in round 8: the constant-propagation reading is a verdict only for decoders that rewrite the text once; two rewriting passes are UNDECIDED unless the structural reading recognises them. Added in round 11: an empty string stored in the database decodes as the empty string (EMPTYDECODE = C13.NIL cross-listed). Added in round 12: a string literal's value is never parsed into another type (NORECAST).",
+		LevelText:   "Decides that the decoder of string literals is a single left-to-right pass over exactly the escape pairs the grammar allows (or, for a chain of replace passes, that the chain is equivalent to such a pass on all words up to length 6 over the escape alphabet, naming a witness otherwise), that exactly one leading and one trailing quote are stripped, and that nothing else rewrites the value between the lexer token and the constant node. Does not decide that the generated lexer accepts exactly the grammar's STRING language (no ANTLR tool to regenerate) nor Unicode normalisation. The text given to antlr.NewInputStream is the caller's text handed through unchanged from the exported entry points, and every query ast.Parse returns has passed the zitiql parser (empty filter excepted). Qualified in round 8: the constant-propagation reading is a verdict only for decoders that rewrite the text once; two rewriting passes are UNDECIDED unless the structural reading recognises them. Added in round 11: an empty string stored in the database decodes as the empty string (EMPTYDECODE = C13.NIL cross-listed). Added in round 12: a string literal's value is never parsed into another type (NORECAST). Added in round 13: the fields of constant nodes are written only while the node is made (CONSTIMMUTABLE); INEXACT as in C01.",
 		LevelNote:   "Trusted: go/types, x/tools SSA, strings.Replacer semantics (leftmost, argument-order priority, single pass), the generated lexer.",
 		DesignRef:   "DESIGN.md C11",
 		Explanation: "Sites: zitiql.ParseZqlString (located by provenance from the STRING case of ToBoltListener.VisitTerminal), the package-level replacer it uses, the ESC fragment of zitiql/ZitiQl.g4.",
